@@ -29,15 +29,15 @@ func init() {
 }
 
 func runC18(c *core.Ctx) {
-	ruleExtractorLocks(c)
-	rulePublication(c)
-	ruleDecodeExclusive(c)
-	ruleReaderImmutable(c)
-	rulePackageState(c)
-	ruleNoForeignAppend(c, "C18-R7", 8, "pdf")
-	ruleCloseOnce(c)
-	rulePoolPutOwnership(c, "C18-R9")
-	ruleCacheKeyType(c)
+	c.Guard(func() { ruleExtractorLocks(c) })
+	c.Guard(func() { rulePublication(c) })
+	c.Guard(func() { ruleDecodeExclusive(c) })
+	c.Guard(func() { ruleReaderImmutable(c) })
+	c.Guard(func() { rulePackageState(c) })
+	c.Guard(func() { ruleNoForeignAppend(c, "C18-R7", 8, "pdf") })
+	c.Guard(func() { ruleCloseOnce(c) })
+	c.Guard(func() { rulePoolPutOwnership(c, "C18-R9") })
+	c.Guard(func() { ruleCacheKeyType(c) })
 }
 
 // accessesField lists the vertices of g that mention field `field` of pdf.Extractor.
@@ -863,7 +863,31 @@ func rulePublication(c *core.Ctx) {
 			cmp, isCmp := a.AsCmp()
 			return isCmp && strings.Contains(core.ExprStr(cmp.L), "len(refs)") && (cmp.Op == token.GTR || cmp.Op == token.NEQ)
 		})
-		refsObj := core.ObjOf(info, cs[0].Call.Args[0])
+		// the references are the slice argument, the value is the argument of interface type,
+		// wherever they stand in the call
+		refsArg, valArg := cs[0].Call.Args[0], cs[0].Call.Args[len(cs[0].Call.Args)-1]
+		if sig, _ := info.TypeOf(cs[0].Call.Fun).(*types.Signature); sig != nil && sig.Params().Len() == len(cs[0].Call.Args) {
+			nSl, nIf := 0, 0
+			for i := 0; i < sig.Params().Len(); i++ {
+				switch pt := sig.Params().At(i).Type().Underlying().(type) {
+				case *types.Slice:
+					if core.IsNamed(pt.Elem(), "pdf", "Reference") {
+						refsArg = cs[0].Call.Args[i]
+						nSl++
+					}
+				case *types.Interface:
+					if !core.IsNamed(sig.Params().At(i).Type(), "reflect", "Type") {
+						valArg = cs[0].Call.Args[i]
+						nIf++
+					}
+				}
+			}
+			if nSl != 1 || nIf != 1 {
+				o.Unrec("cacheStoreOrLoad does not take one slice of references and one value: which argument is which is not decided")
+				return
+			}
+		}
+		refsObj := core.ObjOf(info, refsArg)
 		if !guard && refsObj != nil {
 			// the same fact in another form: the path condition of the call
 			// (boolean locals replaced by their single definition) implies
@@ -902,7 +926,7 @@ func rulePublication(c *core.Ctx) {
 					continue
 				}
 				src, isVar := core.ObjOf(info, ta.X).(*types.Var)
-				if !isVar || paramObj(fn, src.Name()) != src {
+				if !isVar || paramObj(fn, core.VarName(src)) != src {
 					continue
 				}
 				okObj := core.ObjOf(info, as.Lhs[1])
@@ -942,7 +966,7 @@ func rulePublication(c *core.Ctx) {
 			}
 		}
 		decoded := false
-		if vo := core.ObjOf(info, cs[0].Call.Args[2]); vo != nil {
+		if vo := core.ObjOf(info, valArg); vo != nil {
 			for _, d := range core.AssignsTo(info, fn.Decl, vo) {
 				if as, ok := d.(*ast.AssignStmt); ok && len(as.Rhs) == 1 {
 					if call, ok := ast.Unparen(as.Rhs[0]).(*ast.CallExpr); ok && core.Callee(info, call) == nil && core.CalleeKey(info, call) != "builtin.append" {
@@ -951,8 +975,8 @@ func rulePublication(c *core.Ctx) {
 				}
 			}
 		}
-		_, refsLocal := ast.Unparen(cs[0].Call.Args[0]).(*ast.Ident)
-		_, valLocal := ast.Unparen(cs[0].Call.Args[2]).(*ast.Ident)
+		_, refsLocal := ast.Unparen(refsArg).(*ast.Ident)
+		_, valLocal := ast.Unparen(valArg).(*ast.Ident)
 		if !refsLocal || !valLocal {
 			// the chain or the value is not a local variable of Decode (a field of a helper's result)
 			o.Unrec("the references and the value handed to cacheStoreOrLoad are not local variables: %s", core.ExprStr(cs[0].Call))
